@@ -129,6 +129,8 @@ structure Obs where
   tj : List Nat := []
   sv : List Nat := []
   tn : Int := -1
+  tg : String := "-"      -- digest of the JSON form of what `GetTopology()` returns
+  tf : String := "-"      -- digest of the JSON form of a fresh parse of the stored topology JSON
   av : List (Nat × Nat) := []
   tlast : Nat := 0
   dataRaces : Nat := 0
@@ -176,6 +178,8 @@ def check (sc : Script) (o : Obs) : Option String :=
       else if o.tj ≠ lastNonEmpty [] (jsons all) then some "state_topology_json"
       else if o.sv ≠ lastNonEmpty [] (svgs all) then some "state_topology_svg"
       else if (lastHWcCount all).map Int.ofNat ≠ some o.tn then some "getter_topology"
+      -- the stored JSON is the latest one received (clause above); the getter must equal a fresh parse of exactly that
+      else if o.tg ≠ o.tf then some "getter_topology_not_latest"
       else if (availEntries all).any (fun (k, _) => (o.av.find? (·.1 = k)).map (·.2) ≠ lastValue k (availEntries all)) then some "state_availability"
       else if o.av.any (fun (k, _) => lastValue k (availEntries all) = none) then some "state_availability"
       else if o.tlast > burstBoundMs then some "burst_slow"
